@@ -245,12 +245,13 @@ func ruleEmit(rule string) func(*Ctx) {
 				}) {
 					bad = "append to " + kind.param + " is not conditional on buildPath(...) returning true"
 				} else {
-					args := roleArgs(bcall, "c", "op", "reverse", "isOpen", "path")
-					if !isFieldLoadOf(args[2], "clipperBase", "reverseSolution") {
-						bad = "buildPath's reverse argument is " + args[2].String() + ", not the engine's reverseSolution option"
-					} else if b, ok := constBool(args[3]); !ok || b != kind.open {
-						bad = fmt.Sprintf("buildPath is called with isOpen=%s for the %s solution", args[3], kind.param)
-					} else if len(a.elems) != 1 || !loadsAllocPassedTo(a.elems[0], bcall, roleIndex(bcall, "path", 4)) {
+					br := buildPathRoles(c)
+					rev := bpArg(c, bcall, br.reverse)
+					if !isFieldLoadOf(rev, "clipperBase", "reverseSolution") {
+						bad = "buildPath's reverse argument is " + rev.String() + ", not the engine's reverseSolution option"
+					} else if b, ok, txt := bpOpenArg(c, bcall); !ok || b != kind.open {
+						bad = fmt.Sprintf("buildPath is called with isOpen=%s for the %s solution", txt, kind.param)
+					} else if len(a.elems) != 1 || !loadsAllocPassedTo(a.elems[0], bcall, br.path) {
 						bad = "the appended path is not the one buildPath just filled"
 					}
 				}
@@ -287,13 +288,15 @@ func ruleEmit(rule string) func(*Ctx) {
 			if len(bcs) != 1 {
 				bad = fmt.Sprintf("expected one buildPath call in checkBounds, found %d", len(bcs))
 			} else {
-				args := roleArgs(bcs[0], "c", "op", "reverse", "isOpen", "path")
+				br := buildPathRoles(c)
+				args := []ssa.Value{nil, nil, bpArg(c, bcs[0], br.reverse), nil, bpArg(c, bcs[0], br.path)}
 				fa, isFA := args[4].(*ssa.FieldAddr)
 				switch {
 				case !isFieldLoadOf(args[2], "clipperBase", "reverseSolution"):
 					bad = "tree polygons are built with reverse=" + args[2].String() + " instead of the engine's reverseSolution"
-				case func() bool { b, ok := constBool(args[3]); return !ok || b }():
-					bad = "tree polygons are built with isOpen=" + args[3].String()
+				case func() bool { b, ok, _ := bpOpenArg(c, bcs[0]); return !ok || b }():
+					_, _, txt := bpOpenArg(c, bcs[0])
+					bad = "tree polygons are built with isOpen=" + txt
 				case !isFA || fieldName(fa.X.Type(), fa.Field) != "path":
 					bad = "buildPath does not fill outrec.path"
 				default:
@@ -395,9 +398,9 @@ func ruleEmit(rule string) func(*Ctx) {
 				return false
 			}) {
 				bad = "open append is not conditional on buildPath"
-			} else if b, ok := constBool(roleArgs(bcall, "c", "op", "reverse", "isOpen", "path")[3]); !ok || !b {
-				bad = "open paths are built with isOpen=" + roleArgs(bcall, "c", "op", "reverse", "isOpen", "path")[3].String()
-			} else if !isFieldLoadOf(roleArgs(bcall, "c", "op", "reverse", "isOpen", "path")[2], "clipperBase", "reverseSolution") {
+			} else if b, ok, txt := bpOpenArg(c, bcall); !ok || !b {
+				bad = "open paths are built with isOpen=" + txt
+			} else if !isFieldLoadOf(bpArg(c, bcall, buildPathRoles(c).reverse), "clipperBase", "reverseSolution") {
 				bad = "open paths ignore reverseSolution"
 			} else if !guardedBy(a.store, true, func(v ssa.Value) bool { return isFieldLoadOf(v, "OutRec", "isOpen") }) {
 				bad = "append to solutionOpen is not selected by outrec.isOpen"
@@ -415,8 +418,8 @@ func ruleEmit(rule string) func(*Ctx) {
 		for _, f := range c.srcFuncs() {
 			for i, bc := range callsTo(c, f, "(clipperBase).buildPath") {
 				n++
-				c.check(isFieldLoadOf(roleArgs(bc, "c", "op", "reverse", "isOpen", "path")[2], "clipperBase", "reverseSolution"), rule+".reverse", fmt.Sprintf("%s.reverse:%s:buildPath#%d", rule, c.fname(f), i+1), bc.Pos(), c.fname(f),
-					"reverse argument is the engine's reverseSolution option", "reverse argument is "+roleArgs(bc, "c", "op", "reverse", "isOpen", "path")[2].String()+": this site ignores the reverse-solution option",
+				c.check(isFieldLoadOf(bpArg(c, bc, buildPathRoles(c).reverse), "clipperBase", "reverseSolution"), rule+".reverse", fmt.Sprintf("%s.reverse:%s:buildPath#%d", rule, c.fname(f), i+1), bc.Pos(), c.fname(f),
+					"reverse argument is the engine's reverseSolution option", "reverse argument is "+bpArg(c, bc, buildPathRoles(c).reverse).String()+": this site ignores the reverse-solution option",
 					"with reverse-solution every orientation must flip together; a site with a hard-wired flag flips some paths and not others")
 			}
 		}
@@ -443,7 +446,19 @@ func ruleBuildPath(rule string) func(*Ctx) {
 		}
 		hdr := loops[0].header
 		for _, closed := range []bool{true, false} {
-			ex := &explorer{c: c, f: f, atoms: map[string]absVal{"isOpen": boolVal(!closed)}, stop: func(b *ssa.BasicBlock) bool { return b == hdr }, canon: canonParams(f, "c", "op", "reverse", "isOpen", "path")}
+			br := buildPathRoles(c)
+			canon := map[string]string{}
+			if br.op >= 0 {
+				canon[f.Params[br.op].Name()] = "op"
+			}
+			if br.flag >= 0 {
+				canon[f.Params[br.flag].Name()] = "isOpen"
+			}
+			openVal := !closed
+			if !br.openMeansTrue {
+				openVal = closed // the flag means `closed`
+			}
+			ex := &explorer{c: c, f: f, atoms: map[string]absVal{"isOpen": boolVal(openVal)}, stop: func(b *ssa.BasicBlock) bool { return b == hdr }, canon: canon}
 			outs := ex.explore(nil)
 			bad := ""
 			rejects := []string{"(op == nil)", "(op.next == op)"}
@@ -479,6 +494,32 @@ func ruleBuildPath(rule string) func(*Ctx) {
 			c.check(bad == "", rule, fmt.Sprintf("%s:buildPath:reject:%s", rule, map[bool]string{true: "closed", false: "open"}[closed]), f.Pos(), "(clipperBase).buildPath",
 				fmt.Sprintf("returns false before touching *path for %v", rejects), bad,
 				"a closed solution path must have at least 3 vertices; rings of one or two points must be refused")
+		}
+		// after the copy loop an OPEN path is always kept: the sliver-triangle filter is for closed rings
+		{
+			br := buildPathRoles(c)
+			var exit *ssa.BasicBlock
+			for _, sb := range hdr.Succs {
+				if !loops[0].blocks[sb] {
+					exit = sb
+				}
+			}
+			bad := ""
+			if exit != nil && br.flag >= 0 {
+				canon := map[string]string{f.Params[br.flag].Name(): "isOpen"}
+				ex := &explorer{c: c, f: f, atoms: map[string]absVal{"isOpen": boolVal(br.openMeansTrue)}, canon: canon, maxPaths: 2000}
+				for _, p := range ex.explore(exit) {
+					if p.end != "return" || len(p.ret) != 1 {
+						continue
+					}
+					if p.ret[0].abs.k != aBool || !p.ret[0].abs.b {
+						bad = "an open path can be refused after it was copied (path: " + p.condString() + " returns " + p.ret[0].expr + "): the three-point sliver filter is meant for closed rings"
+					}
+				}
+			}
+			c.check(bad == "", rule, rule+":buildPath:open-kept", f.Pos(), "(clipperBase).buildPath",
+				"once copied, an open path is always reported (the sliver-triangle filter applies to closed rings only)", bad,
+				"an open result piece of three points whose ends lie close together is a legitimate polyline; dropping it loses part of the clipped line")
 		}
 		// appends inside the loop are guarded by `op2.pt != lastPt`
 		as := appendStores(f, func(a ssa.Value) bool { return a == ssa.Value(param(f, "path", 4)) })
@@ -759,4 +800,93 @@ func roleIndex(ci ssa.CallInstruction, role string, pos int) int {
 		}
 	}
 	return pos
+}
+
+// buildPathRoles: which parameter of buildPath is the ring, the reverse flag, the open/closed flag and the output
+// path — by type and name, so that a method turned into a function or a flag renamed `closed` (with its meaning
+// turned round) is still read correctly. openMeansTrue says whether the flag is true for OPEN paths; it is read from
+// the body: two-point rings (op.next == op.prev) are refused for closed paths only.
+type bpRoles struct {
+	op, reverse, flag, path int
+	openMeansTrue         bool
+}
+
+func buildPathRoles(c *Ctx) bpRoles {
+	g := c.fn("(clipperBase).buildPath")
+	r := bpRoles{op: -1, reverse: -1, flag: -1, path: -1, openMeansTrue: true}
+	var bools []int
+	for i, p := range g.Params {
+		switch typeName(p.Type()) {
+		case "*OutPt":
+			r.op = i
+		case "*Path64":
+			r.path = i
+		case "bool":
+			bools = append(bools, i)
+		}
+	}
+	for _, i := range bools {
+		if g.Params[i].Name() == "reverse" {
+			r.reverse = i
+		}
+	}
+	for _, i := range bools {
+		if i != r.reverse {
+			if r.reverse < 0 {
+				r.reverse = i // the first flag
+				continue
+			}
+			r.flag = i
+		}
+	}
+	if r.flag < 0 {
+		return r
+	}
+	// polarity: with the flag fixed, is the two-point test evaluated?
+	fp := g.Params[r.flag]
+	tested := map[bool]bool{}
+	for _, v := range []bool{false, true} {
+		ex := &explorer{c: c, f: g, atoms: map[string]absVal{fp.Name(): boolVal(v)}, maxPaths: 2000}
+		loops := naturalLoops(g)
+		if len(loops) > 0 {
+			hdr := loops[0].header
+			ex.stop = func(b *ssa.BasicBlock) bool { return b == hdr }
+		}
+		for _, p := range ex.explore(nil) {
+			for _, cd := range p.conds {
+				if strings.Contains(cd.expr, ".next == ") && strings.Contains(cd.expr, ".prev") {
+					tested[v] = true
+				}
+			}
+		}
+	}
+	if tested[true] && !tested[false] {
+		r.openMeansTrue = false // the refusal of two-point rings applies when the flag is TRUE: the flag means `closed`
+	}
+	return r
+}
+
+// bpOpenArg: the open/closed argument of a buildPath call, as "is the path open": value, whether it is a constant,
+// and a rendering.
+func bpOpenArg(c *Ctx, call ssa.CallInstruction) (open bool, known bool, text string) {
+	r := buildPathRoles(c)
+	if r.flag < 0 || r.flag >= len(call.Common().Args) {
+		return false, false, "?"
+	}
+	a := call.Common().Args[r.flag]
+	b, ok := constBool(a)
+	if !ok {
+		return false, false, a.String()
+	}
+	if !r.openMeansTrue {
+		return !b, true, fmt.Sprintf("%v (closed=%v)", !b, b)
+	}
+	return b, true, fmt.Sprint(b)
+}
+
+func bpArg(c *Ctx, call ssa.CallInstruction, idx int) ssa.Value {
+	if idx >= 0 && idx < len(call.Common().Args) {
+		return call.Common().Args[idx]
+	}
+	return ssa.NewConst(nil, types.Typ[types.UntypedNil])
 }
